@@ -612,46 +612,7 @@ def _r25(ctx, prog, M, T):
 # -- R2.6 ---------------------------------------------------------------------------------------------
 def _r26(ctx, prog, M, T):
     ctx.rule("R2.6", "writer closure: one part sequence feeds content types and members; rels items for parts with rels; package rels")
-    pw = prog.cls("pptx.opc.serialized", "PackageWriter")
-    w = pw.methods.get("_write")
-    if w is None:
-        raise AnalysisError("anchor vanished: PackageWriter._write")
-    calls = [n.func.attr for n in walk_own(w.node) if isinstance(n, ast.Call) and isinstance(n.func, ast.Attribute)
-             and dotted(n.func.value) == "self"]
-    need = ["_write_content_types_stream", "_write_pkg_rels", "_write_parts"]
-    if all(x in calls for x in need):
-        ctx.ok("R2.6", "PackageWriter._write", sample={"steps": [c for c in calls if c.startswith("_write")]})
-    else:
-        ctx.violation("R2.6", "PackageWriter._write", "writer no longer performs %s" % [x for x in need if x not in calls],
-                      file=w.file, line=w.line)
-    # same sequence object
-    cts = pw.methods.get("_write_content_types_stream")
-    wp = pw.methods.get("_write_parts")
-    src_cts = ast.unparse(cts.node) if cts else ""
-    src_wp = ast.unparse(wp.node) if wp else ""
-    if "self._parts" in src_cts and "for part in self._parts" in src_wp:
-        ctx.ok("R2.6", "same-part-sequence", sample={"content_types": "_ContentTypesItem.xml_for(self._parts)", "members": "for part in self._parts"})
-    else:
-        ctx.violation("R2.6", "same-part-sequence", "content types and members are not derived from the same part sequence",
-                      file=pw.file, line=pw.line)
-    # rels written iff part has rels
-    ok = False
-    if wp is not None:
-        for n in walk_own(wp.node):
-            if isinstance(n, ast.If) and "_rels" in ast.unparse(n.test):
-                body = ast.unparse(ast.Module(body=n.body, type_ignores=[]))
-                if "rels_uri" in body and ".rels.xml" in body.replace(" ", ""):
-                    ok = True
-    if ok:
-        ctx.ok("R2.6", "rels-items", sample={"rule": "if part._rels: write(part.partname.rels_uri, part.rels.xml)"})
-    else:
-        ctx.violation("R2.6", "rels-items", "a part's relationships item is not written when the part has relationships",
-                      file=pw.file, line=wp.line if wp else pw.line)
-    # save passes all reachable parts
-    save = prog.func("pptx.opc.package", "OpcPackage.save")
-    s = ast.unparse(save.node)
-    if "self.iter_parts()" in s and "self._rels" in s:
-        ctx.ok("R2.6", "OpcPackage.save", sample={"parts": "tuple(self.iter_parts())", "pkg_rels": "self._rels"})
-    else:
-        ctx.violation("R2.6", "OpcPackage.save", "save does not hand every reachable part and the package rels to the writer",
-                      file=save.file, line=save.line)
+    from checks.c01 import writer_closure_rules
+
+    writer_closure_rules(ctx, prog, "R2.6")
+
